@@ -55,7 +55,7 @@ package decoration
 //@   requires e.decor != nil && widthsOK(e.colWidths) && len(e.colWidths) <= 1048576
 //@   assigns new(string)
 //@   ensures [boxless-emits-no-rules] e.decor.isBoxless ==> result == "" @C03
-//@   loop#1 invariant -1 <= rangeindex && rangeindex < len(e.colWidths) && len(fields) == 1 + 2 * (rangeindex + 1) && cap(fields) >= 2 * len(e.colWidths) + 2 && fresh(fields)
+//@   loop#1 invariant -1 <= rangeindex && rangeindex < len(e.colWidths) && len(fields) == 1 + 2 * (rangeindex + 1) && fresh(fields)
 //@   loop#1 invariant fields[0] == left
 //@   loop#1 invariant [segments-so-far] forall k int :: {e.colWidths[k]} 0 <= k && k <= rangeindex ==> fields[1 + 2 * k] == repeat(horiz, 2 + e.colWidths[k])
 //@   loop#1 invariant [crossings-so-far] forall m int :: {fields[m]} 2 <= m && m < len(fields) && m % 2 == 0 ==> fields[m] == cross
@@ -76,7 +76,7 @@ package decoration
 //@   requires [alignments-valid] forall i int :: {colAligns[i]} 0 <= i && i < len(colAligns) ==> isAlign(colAligns[i])
 //@   assigns new(string)
 //@   ensures true
-//@   loop#1 invariant -1 <= rangeindex && rangeindex < len(e.colWidths) && fresh(fields) && cap(fields) >= 2 * len(e.colWidths) + 1 && len(fields) == slot(ds, rangeindex + 1)
+//@   loop#1 invariant -1 <= rangeindex && rangeindex < len(e.colWidths) && fresh(fields) && len(fields) == slot(ds, rangeindex + 1)
 //@   loop#1 invariant [slots-so-far] forall k int :: {cellStrs[k]} 0 <= k && k <= rangeindex ==> fields[slot(ds, k)] == aligned(cellStrs[k].S, cellStrs[k].W, e.colWidths[k], colAligns[k])
 //@   loop#1 invariant ds.Left != "" ==> fields[0] == ds.Left
 //@   loop#1 decreases len(e.colWidths) - rangeindex
